@@ -410,9 +410,19 @@ def run_history(job: T.Tuple[int, int, str, T.Optional[T.List[dict]]]) -> dict:
                             cur.min, cur.max = 0, 1000
                 write_files()
             inject = rng.random() < 0.1
-            expect_ok = m.wipe(inject)
-            argv = ['setup', '--wipe', b, src]
-            step = {'step': 'wipe', 'inject_failure': inject, 'restored': kind == 'restore-and-wipe'}
+            wassign: T.Dict[str, str] = {}
+            if m.st.configured and rng.random() < 0.4:
+                # options given together with --wipe must beat the recorded command line
+                wassign = gen.assignment(m, rng.randint(1, 2), 0.0, 0.0)
+                if m.st.record and rng.random() < 0.6:
+                    k = rng.choice(sorted(m.st.record))
+                    subn, _, name = k.rpartition(':')
+                    spec = m._spec_for(k, m.files) if (name in L.BUILTINS or name in m.files.get(subn, {})) else None
+                    if spec is not None:
+                        wassign[k] = gen.value_for(spec)
+            expect_ok = m.wipe(inject, wassign)
+            argv = ['setup', '--wipe', b, src] + flags(wassign)
+            step = {'step': 'wipe', 'inject_failure': inject, 'restored': kind == 'restore-and-wipe', 'assign': wassign}
             inject = inject
         if step.get('inject_failure'):
             step['failure_kind'] = rng.choice(['FAIL', 'FAIL2'])
